@@ -408,6 +408,14 @@ CONST_ITEMS = [
     ("src/enc/entropy_encode.rs", "gaps", "kShellGaps"),
     ("src/enc/entropy_encode.rs", "kLut", "kReverseLut"),
     ("src/lib.rs", "VERSION", "BROTLI_CRATE_VERSION"),
+    # w-fragment (C01Fragment): tables of the quality-0/1 fragment writers
+    ("src/enc/compress_fragment_two_pass.rs", "kNumExtraBits", "kFragNumExtraBits"),
+    ("src/enc/compress_fragment_two_pass.rs", "kInsertOffset", "kFragInsertOffset"),
+    ("src/enc/compress_fragment.rs", "kCmdHistoSeed", None),
+    ("src/enc/encode.rs", "kDefaultCommandDepths", None),
+    ("src/enc/encode.rs", "kDefaultCommandBits", None),
+    ("src/enc/encode.rs", "kDefaultCommandCode", None),
+    ("src/enc/encode.rs", "kDefaultCommandCodeNumBits", None),
 ]
 
 # functions whose integer literals (in source order) are harvested as a list
